@@ -748,3 +748,67 @@ def run(ctx):
                     return
 
     drive.for_each_case(ctx, 'inner-generics', 60, body_inner_generics, gen=lambda c, r: Ty('int'))
+
+    # a PLAIN subclass of a subscripted generic used as a field type is a class of its own (its added fields stay) when the enclosing
+    # generic is subscripted; and a class listing an ordinary mixin (or Generic[...]) FIRST still inherits its pane parent's options
+    def body_plain_subclass_and_mixins(i, rng, ty, T):
+        import types as _types
+        import warnings as _warnings
+        TA, TB = t.TypeVar('TA'), t.TypeVar('TB')
+        n = next(_serial)
+        with _warnings.catch_warnings():
+            _warnings.simplefilter('ignore')
+            Box = _types.new_class(f"SBox{n}", (env.PaneBase, t.Generic[TA]), {}, lambda ns: ns.update({'__annotations__': {'x': TA}, '__module__': __name__}))
+            Labelled = type(f"SLab{n}", (Box[TA],), {'__annotations__': {'label': str}, '__module__': __name__})
+            Holder = _types.new_class(f"SHold{n}", (env.PaneBase, t.Generic[TA]), {}, lambda ns: ns.update({'__annotations__': {'box': Labelled, 'plain': Box[TA]}, '__module__': __name__}))
+            route = rng.choice(('subscript', 'subclass', 'reparam'))
+            C = {'subscript': lambda: Holder[int], 'subclass': lambda: type(f"SH2{n}", (Holder[int],), {'__annotations__': {}, '__module__': __name__}),
+                 'reparam': lambda: _types.new_class(f"SH3{n}", (Holder[TB], t.Generic[TB]), {}, lambda ns: ns.update({'__annotations__': {}, '__module__': __name__}))[int]}[route]()
+            rows = [({'box': {'x': 1, 'label': 's'}, 'plain': {'x': 2}}, True, 'member'), ({'box': {'x': 1}, 'plain': {'x': 2}}, False, "the subclass's own field missing"),
+                    ({'box': {'x': 1, 'label': 5}, 'plain': {'x': 2}}, False, "the subclass's own field ill-typed"), ({'box': {'x': 1, 'label': 's'}, 'plain': {'x': 'no'}}, False, 'substituted field ill-typed')]
+            for data, must, what in rows:
+                o = observe(C.from_data, data)
+                ctx.count('plain_subclass_field_checks')
+                if (o.kind == 'value') != must or o.kind == 'escape' or (must and (type(o.val.box).__name__ != Labelled.__name__ or o.val.box.label != 's')):
+                    ctx.violation('conversion-enforces-substituted-types', 'plain-subclass', i, {'field_type': 'class Labelled(Box[T]): label: str  (unsubscripted, inside Holder[T])', 'route': route,
+                                                                                            'data': short(data, 150), 'case': what, 'must_accept': must, 'pane': o.brief()[:200]},
+                                  mech='plain-subclass-of-subscripted-generic-rebuilt')
+                    return
+        # ---- mixin first
+        style = rng.choice(('camel', 'scream', 'kebab'))
+        Base = type(f"MBase{n}", (env.PaneBase,), {'__annotations__': {'my_field': int, 'opt_two': int}, 'opt_two': 0, '__module__': __name__},
+                    allow_extra=True, out_rename=style, in_rename=('snake', style), in_format=('struct', 'tuple'), frozen=False, custom={int: probe_converter('m')})
+        Mixin = type('DescribeMixin', (), {'describe': lambda self: 'me'})
+        first = rng.choice(('mixin', 'generic'))
+        if first == 'mixin':
+            Cfg = observe(lambda: type(f"MCfg{n}", (Mixin, Base), {'__annotations__': {'zz_new': int}, 'zz_new': 1, '__module__': __name__}))
+        else:
+            # `class Cfg(Generic[U], Base)`: Generic written first, the (non-generic) pane parent second
+            Cfg = observe(lambda: _types.new_class(f"MCfg{n}", (t.Generic[TB], Base), {}, lambda ns: ns.update({'__annotations__': {'zz_new': int, 'gen_val': t.Optional[TB]}, 'zz_new': 1,
+                                                                                                                  'gen_val': None, '__module__': __name__})))
+        ctx.count('mixin_first_classes')
+        if Cfg.kind != 'value':
+            ctx.count('mixin_first_unbuildable')
+            ctx.mark('mixin_first_build_errors', f"{first}: {Cfg.brief()[:100]}")
+            return
+        K = Cfg.val
+        from .c20 import canonical
+        facts = {}
+        o = observe(K.from_data, {'my_field': 'v', 'unknown_key': 1})
+        facts['allow_extra inherited'] = o.kind == 'value'
+        o2 = observe(K.from_data, ['v'])
+        facts['tuple layout inherited'] = o2.kind == 'value'
+        o3 = observe(lambda: K.from_data({canonical('my_field', style): 'v'}).into_data())
+        facts['renaming inherited'] = o3.kind == 'value' and canonical('my_field', style) in o3.val and canonical('zz_new', style) in o3.val
+        facts['custom handlers inherited'] = o.kind == 'value' and isinstance(o.val.my_field, Probe)
+        o4 = observe(lambda: setattr(K.from_data({'my_field': 'v'}), 'opt_two', 5))
+        facts['frozen=False inherited'] = o4.kind == 'value'
+        ctx.count('option_inheritance_checks', len(facts))
+        ctx.case(('mixin-first', first, tuple(sorted(k for k, v in facts.items() if not v))), nontrivial=True)
+        lost = sorted(k for k, v in facts.items() if not v)
+        if lost:
+            ctx.violation('options-inherited', 'mixin-first', i, {'bases': ['DescribeMixin', 'Base'] if first == 'mixin' else ['Generic[U]', 'Base'], 'lost': lost,
+                                                               'from_data_with_extra_key': o.brief()[:150], 'from_data_sequence': o2.brief()[:150], 'into_data': o3.brief()[:150]},
+                          mech='first-base-not-a-pane-class:options-lost')
+
+    drive.for_each_case(ctx, 'plain-subclass', 40, body_plain_subclass_and_mixins, gen=lambda c, r: Ty('int'))
